@@ -147,6 +147,8 @@ def run(ctx):
     unique_rules(C, P)
     # ---- prefix ----------------------------------------------------------------------------------
     prefix_rules(C, P)
+    C.rule('C04-MUST-exact', 'AutosarModel::get_element_by_path passes its argument unchanged to the index lookup')
+    lookup_rules(C, P)
     # ---- model roles in the cross-model move -----------------------------------------------------
     mf = P.get('ElementRaw::move_element_full')
     dst = [l for l, n in mf.names.items() if n == 'model' and l <= mf.argc]
@@ -382,6 +384,21 @@ def unique_before_link(C, P, rule, fns):
         C.check(ok, rule, '%s|unique-before-link' % fn.split('::')[-1], 'an identifiable element can be linked into its new parent without make_unique_item_name having run (the call is skipped under a condition other than "not identifiable"): '
                 'two sub elements of the destination can end up with the same path', b.where(ins[0]) if ins else '%s:%d' % (b.file, b.line),
                 sample={'fn': fn, 'link': 'content.insert(Element)', 'only way round make_unique_item_name': 'is_identifiable() == false'})
+
+
+def lookup_rules(C, P):
+    """get_element_by_path looks up exactly the text it was given: the key of the index access is the parameter itself (no trimming,
+    no normalisation - "/Pkg/" is not the path of any element)"""
+    from flow import is_param_itself
+    ge = P.find('AutosarModel::get_element_by_path')
+    if ge is None:
+        C.anchor_missing('C04-MUST-exact', 'AutosarModel::get_element_by_path')
+        return
+    gets = [(o['pos'], ge.blocks[o['pos'][0]]['term']) for o in E.ident_ops(ge) if o['op'] in ('get', 'get_full', 'get_index_of', 'contains_key', 'get_key_value')]
+    pidx = [l for l in range(1, ge.argc + 1) if 'str' in (ge.local_ty(l) or '')]
+    ok = bool(gets) and bool(pidx) and all(len(t['args']) > 1 and is_param_itself(ge, t['args'][1], pidx[0]) for pos, t in gets)
+    C.check(ok, 'C04-MUST-exact', 'get_element_by_path|key-is-the-argument', 'get_element_by_path looks the index up with a text derived from its argument instead of the argument itself: a text that is not the path of any element '
+            '(e.g. with a trailing slash) returns an element', ge.where(gets[0][0]) if gets else '%s:%d' % (ge.file, ge.line), sample={'fn': 'get_element_by_path', 'lookups': len(gets), 'key': 'the path parameter itself'})
 
 
 def prefix_rules(C, P):
